@@ -123,7 +123,10 @@ fn sweep_case(ctx: Option<&Ctx>, base: &Prepared, input: &[u8], chunk: usize, pr
             }
         }
         if let Some((m0, _)) = &first_ok {
-            if m >= m0 + slack {
+            // slack 0 = "up to twice the first sufficient limit" (a growth step that is taken
+            // only when the allowance is large enough shows up there)
+            let s = if slack == 0 { *m0 + 64 } else { slack };
+            if m >= m0 + s {
                 return None;
             }
         }
@@ -220,12 +223,13 @@ pub fn replay(case: &Value) -> Option<String> {
     let input = unhex(case["input_hex"].as_str()?);
     let chunk = case["chunk"].as_u64()? as usize;
     let pre_mode = case["pre_mode"].as_u64()? as u8;
+    let slack = case["slack"].as_u64().unwrap_or(64) as usize;
     let base = Prepared::new(cfg).ok()?;
-    sweep_case(None, &base, &input, chunk, pre_mode, 64, 1 << 17).map(|(m, _)| m)
+    sweep_case(None, &base, &input, chunk, pre_mode, slack, 1 << 17).map(|(m, _)| m)
 }
 
-fn report(ctx: &Ctx, base: &Prepared, input: &[u8], chunk: usize, pre_mode: u8, msg: String, label: &str) {
-    let case = json!({"cfg": base.cfg, "label": label, "input_hex": hex(input), "input_lossy": lossy(&input[..input.len().min(80)]), "chunk": chunk, "pre_mode": pre_mode});
+fn report(ctx: &Ctx, base: &Prepared, input: &[u8], chunk: usize, pre_mode: u8, slack: usize, msg: String, label: &str) {
+    let case = json!({"cfg": base.cfg, "label": label, "slack": slack, "input_hex": hex(input), "input_lossy": lossy(&input[..input.len().min(80)]), "chunk": chunk, "pre_mode": pre_mode});
     let c2 = case.clone();
     ctx.violation_determinism(msg, case, &|| replay(&c2));
 }
@@ -243,7 +247,7 @@ pub fn run_check(ctx: &Ctx) -> i32 {
         if let Some((msg, _)) = sweep_case(Some(ctx), &base, &case.input, case.chunk, pre_mode, 64, 1 << 17) {
             // make the message the replay-stable one
             let msg = sweep_case(None, &base, &case.input, case.chunk, pre_mode, 64, 1 << 17).map(|x| x.0).unwrap_or(msg);
-            report(ctx, &base, &case.input, case.chunk, pre_mode, msg, &case.label);
+            report(ctx, &base, &case.input, case.chunk, pre_mode, 64, msg, &case.label);
         }
         if j % 211 == 0 {
             ctx.sample(json!({"case": case.label, "config": case.cfg.label(), "chunk_size": case.chunk, "prealloc_mode": pre_mode, "input_len": case.input.len()}));
@@ -260,16 +264,16 @@ pub fn run_check(ctx: &Ctx) -> i32 {
         }
         let case = &hcases[j];
         let base = Prepared::new(case.cfg.clone()).unwrap();
-        if let Some((msg, _)) = sweep_case(Some(ctx), &base, &case.input, case.chunk, 0, 64, 1 << 17) {
-            let msg = sweep_case(None, &base, &case.input, case.chunk, 0, 64, 1 << 17).map(|x| x.0).unwrap_or(msg);
-            report(ctx, &base, &case.input, case.chunk, 0, msg, &case.label);
+        if let Some((msg, _)) = sweep_case(Some(ctx), &base, &case.input, case.chunk, 0, 0, 1 << 17) {
+            let msg = sweep_case(None, &base, &case.input, case.chunk, 0, 0, 1 << 17).map(|x| x.0).unwrap_or(msg);
+            report(ctx, &base, &case.input, case.chunk, 0, 0, msg, &case.label);
         }
         if j % 17 == 0 {
             ctx.sample(json!({"case": case.label, "config": case.cfg.label(), "chunk_size": case.chunk, "input_len": case.input.len()}));
         }
     });
     if !ctx.capped.load(std::sync::atomic::Ordering::Relaxed) {
-        ctx.level_done(&format!("{} stack grow/pop/re-grow histories x every limit 0..M0+64", hcases.len()));
+        ctx.level_done(&format!("{} stack grow/pop/re-grow histories x every limit 0..2*M0+64", hcases.len()));
     }
     // generic tag-soup part
     let none = Prepared::new(Cfg::default().strict(false)).unwrap();
